@@ -39,7 +39,7 @@ VERSIONS = tuple(range(4, 15))
 FAIL_KINDS = ("none", "none", "error", "rstack", "lost", "eof", "silent")
 PROBES = ["soak.epochs", "soak.reconnect_other_version", "soak.fail.error", "soak.fail.rstack", "soak.fail.lost", "soak.fail.eof", "soak.fail.silent", "soak.fail.none",
           "soak.send.success", "soak.send.failure", "soak.send.never", "soak.send.cut_by_failure", "soak.incoming", "soak.join", "soak.leave", "soak.mc_subscribe",
-          "soak.mc_unsubscribe", "soak.keepalives", "soak.faulty_line", "soak.start.zigpy", "soak.start.zigpy-fresh", "soak.started_by_zigpy_initialize", "soak.reported", "soak.sends_in_progress_at_failure", "soak.exception_escaped_after_failure"]
+          "soak.mc_unsubscribe", "soak.keepalives", "soak.faulty_line", "soak.start.zigpy", "soak.start.zigpy-fresh", "soak.started_by_zigpy_initialize", "soak.startup_failed_by_command_queued_at_reset", "soak.reported", "soak.sends_in_progress_at_failure", "soak.exception_escaped_after_failure"]
 
 
 def run(params, tape, detail=False):
@@ -222,6 +222,28 @@ def run(params, tape, detail=False):
     st = {}
     mc_lock = asyncio.Lock()
 
+    def data_between_rst_and_rstack():
+        """The known race (DESIGN.md F13): a host DATA frame first written after an RST of the host and before the RSTACK answering it."""
+        rst_t = None
+        rstacks = sorted(t_ for (t_, fr) in rig.mon.rx_frames if fr[0] == "rstack")
+        for (t_, fr, _d) in rig.host_writes:
+            if fr is None:
+                continue
+            if fr[0] == "rst":
+                rst_t = t_
+            elif fr[0] == "data" and not fr[2] and rst_t is not None and not any(rst_t <= r <= t_ for r in rstacks):
+                return (rst_t, t_)
+        return None
+
+    def startup_failed(ex, where):
+        hit = data_between_rst_and_rstack()
+        if hit is not None:
+            probe("startup_failed_by_command_queued_at_reset")
+            viol.append(("C09.fallback", "command-queued-at-reset", f"soak: {where} raised {ex!r}: a command of another caller (zigpy's watchdog keep-alive) was queued for the command slot when "
+                         f"bellows reset the NCP; its DATA frame was written at t={hit[1]:.4f}, after the RST (t={hit[0]:.4f}) and before the RSTACK"))
+        else:
+            viol.append(("C09.retry", "soak-reconnect", f"soak: {where} raised {ex!r} on a quiet line"))
+
     async def epoch(app, e):
         V = ses["V"]
         ses.update(epoch=e, healthy=False, t_fail=None, kind=None)
@@ -240,7 +262,7 @@ def run(params, tape, detail=False):
                 else:
                     await app.start_network()
         except Exception as ex:  # noqa: BLE001
-            viol.append(("C09.retry", "soak-reconnect", f"soak: epoch {e} (NCP v{V}): connect()/start_network() raised {ex!r} on a quiet line"))
+            startup_failed(ex, f"epoch {e} (NCP v{V}): connect() / start_network() / initialize()")
             return False
         ncp.auto_confirm = False
         if by_zigpy:
@@ -362,7 +384,11 @@ def run(params, tape, detail=False):
             ncp.auto_confirm = True
             await app.connect()
             rig.ezsp = app._ezsp
-            await app.initialize(auto_form=True)
+            try:
+                await app.initialize(auto_form=True)
+            except Exception as ex:  # noqa: BLE001
+                startup_failed(ex, f"first start-up through zigpy's initialize(auto_form=True) ({start_mode}, NCP v{V0})")
+                return
         st["app"] = app
         for e in range(nepochs):
             if e > 0:
